@@ -441,7 +441,7 @@ class ApplyDatasetC(ClassContract):
     methods = {
         'copy': [Variant('freeze=any', params={'freeze': 'bool'}, post=_apply_copy_post, hooks=_apply_hooks(), props=('C13',))],
         '__iter__': [_apply_iter(False), _apply_iter(True)],
-        'ordered': [Variant('flag', post=post_bool_property(lambda S: smt.F), props=('C13',), inline=('ordered',))],
+        'ordered': [Variant('flag', post=post_bool_property(lambda S: smt.F), props=('C13',), inline=('ordered',), hooks=_apply_hooks())],
     }
 
 
